@@ -21,13 +21,14 @@
 #include <sys/wait.h>
 #include <sys/mman.h>
 #include <sys/prctl.h>
+#include <sys/resource.h>
 extern "C" {
 #include "matrixssl/matrixsslApi.h"
 void vfh_entropy_reset(uint64_t seed);
 int vfh_entropy_select(int stream);
 void vfh_clock_set_ms(int64_t ms);
 void vfh_clock_advance_ms(int64_t d);
-#define C19_STACK 12
+#define C19_STACK 24
 #define C19_FAULTLOG 4
 typedef struct { void *ptr; uint64_t size; uint64_t seq; void *site; } c19_live_t;
 typedef struct { uint64_t seq; uint64_t size; int kind; int depth; void *stack[C19_STACK]; } c19_fault_t;
@@ -648,10 +649,19 @@ static std::string site_str(void *pc) { if (!pc) return "?"; const SiteInfo &s =
 static std::string stack_str(const c19_fault_t &f, int from = 0) {
     std::string r; for (int i = from; i < f.depth && i < C19_STACK; i++) { const SiteInfo &s = site(f.stack[i]); if (!s.lib) break; if (!r.empty()) r += " < "; r += fmt("%s:%d", s.fn.c_str(), s.line); } return r;
 }
-// first frame of the failing allocation's stack that is outside the bignum/EC bulk code: the function whose error handling is exercised
+// generic containers (bignum / EC temporaries, psBuf/psDynBuf) are never the owner of an error path
+static bool generic_frame(const SiteInfo &s) { return s.bulk || s.file == "core/src/psbuf.c" || s.file == "core/include/psbuf.h"; }
+// first frame of the failing allocation's stack outside the generic code: the function whose error handling is exercised
 static std::string owner_fn(const c19_fault_t &f) {
-    for (int i = 0; i < f.depth && i < C19_STACK; i++) { const SiteInfo &s = site(f.stack[i]); if (!s.lib) break; if (!s.bulk) return s.fn; }
+    for (int i = 0; i < f.depth && i < C19_STACK; i++) { const SiteInfo &s = site(f.stack[i]); if (!s.lib) break; if (!generic_frame(s)) return s.fn; }
     return f.depth ? site(f.stack[0]).fn : "?";
+}
+// leak root cause: the innermost function that is on the stack both when the leaked block was allocated and when the
+// allocation failed - that function saw the failure and was responsible for releasing the block
+static std::string leak_owner(const c19_fault_t &leaked, const c19_fault_t &failed) {
+    std::set<std::string> fs; for (int i = 0; i < failed.depth && i < C19_STACK; i++) { const SiteInfo &s = site(failed.stack[i]); if (!s.lib) break; fs.insert(s.fn); }
+    for (int i = 0; i < leaked.depth && i < C19_STACK; i++) { const SiteInfo &s = site(leaked.stack[i]); if (!s.lib) break; if (!generic_frame(s) && fs.count(s.fn)) return s.fn; }
+    return owner_fn(leaked);
 }
 
 struct Base { bool have = false; bool bad = false; std::string err; uint64_t N = 0; std::vector<uint8_t> bulk; std::vector<uint32_t> rank, ctx; std::vector<void *> sites; std::map<void *, unsigned> live; uint64_t live_total = 0;
@@ -672,7 +682,9 @@ static ChildResult run_child(const Scn &s, int mode, uint64_t k, uint64_t trace_
     if (pid < 0) { perror("fork"); abort(); }
     if (pid == 0) {
         prctl(PR_SET_PDEATHSIG, SIGKILL);
-        signal(SIGALRM, SIG_DFL); alarm(90);
+        // a runaway case is bounded by CPU time (robust on a loaded machine); the wall-clock alarm is only a backstop
+        struct rlimit rl = { 60, 60 }; setrlimit(RLIMIT_CPU, &rl);
+        signal(SIGALRM, SIG_DFL); alarm(900);
         __sanitizer_set_death_callback(child_death);
         dup2(g_errfd, 2); dup2(g_errfd, 1);
         child_main(s, mode, k, trace_seq);
@@ -701,7 +713,7 @@ static void crash_signature(const ChildResult &r, std::string &sig, std::string 
         size_t e = t.find('\n', p); std::string m = t.substr(p + 15, e - (p + 15));
         kind = (m.find("null") != std::string::npos) ? "null-deref" : "ubsan"; pos = p; top = m;
     } else if ((p = t.find("ERROR: LeakSanitizer")) != std::string::npos) { kind = "lsan"; pos = p; }
-    else if (WIFSIGNALED(r.status)) kind = WTERMSIG(r.status) == SIGALRM ? "hang" : fmt("signal-%d", WTERMSIG(r.status));
+    else if (WIFSIGNALED(r.status)) kind = (WTERMSIG(r.status) == SIGALRM || WTERMSIG(r.status) == SIGXCPU || WTERMSIG(r.status) == SIGKILL) ? "hang" : fmt("signal-%d", WTERMSIG(r.status));
     // frames: "#n 0x... in fn file:line"
     std::string frames; int nf = 0; bool got = false;
     for (p = t.find("    #", pos); p != std::string::npos && nf < 8; p = t.find("    #", p + 1)) {
@@ -794,8 +806,9 @@ static void prop(Tape &t, Ctx &c) {
     ChildResult r = run_child(s, mode, k);
     const c19_fault_t &f0 = g_shm->flog[0];
     void *fsite = g_shm->n_fault && f0.depth ? f0.stack[0] : nullptr;
-    std::string where = fmt("%s mode=%s k=%llu/%llu faults=%llu first failed allocation: #%llu %s (%llu bytes) via %s", s.name.c_str(), mode_name[mode], (unsigned long long) k, (unsigned long long) b.N,
+    std::string where = fmt("[case %llu] %s mode=%s k=%llu/%llu faults=%llu first failed allocation: #%llu %s (%llu bytes) via %s", (unsigned long long) idx, s.name.c_str(), mode_name[mode], (unsigned long long) k, (unsigned long long) b.N,
                             (unsigned long long) g_shm->n_fault, (unsigned long long) f0.seq, site_str(fsite).c_str(), (unsigned long long) f0.size, stack_str(f0, 1).c_str());
+    (void) idx;
     c.count(std::string("mode:") + mode_name[mode]);
     c.count(std::string("kind:") + (s.kind == SC_LOAD ? "load" : s.kind == SC_SESS ? "session" : s.cred == GOOD ? "handshake-good" : "handshake-bad"));
     if (c.verbose) fprintf(stderr, "case: %s\n  outcome: %s\n  crashed=%d sig=%s\n", where.c_str(), g_shm->outcome, r.crashed, g_shm->sig);
@@ -831,7 +844,7 @@ static void prop(Tape &t, Ctx &c) {
     for (uint32_t i = 0; i < g_shm->n_live; i++) {
         void *a = g_shm->live[i].site; auto it = b.live.find(a);
         if (live[a] > (it == b.live.end() ? 0u : it->second)) {
-            c19_live_t lv = g_shm->live[i]; uint64_t total = g_shm->live_total;
+            c19_live_t lv = g_shm->live[i]; uint64_t total = g_shm->live_total; c19_fault_t failed = f0;
             c.count("outcome:leak");
             // deterministic re-run that records where the leaked block was allocated
             std::string via;
@@ -839,7 +852,7 @@ static void prop(Tape &t, Ctx &c) {
             if (!r2.crashed && g_shm->trace.seq == lv.seq) via = stack_str(g_shm->trace, 0);
             const SiteInfo &ls = site(a);
             // root cause = the function that owns the leaked object (first non-bulk frame of the allocation stack)
-            std::string lown = (!r2.crashed && g_shm->trace.seq == lv.seq) ? owner_fn(g_shm->trace) : ls.fn;
+            std::string lown = (!r2.crashed && g_shm->trace.seq == lv.seq) ? leak_owner(g_shm->trace, failed) : ls.fn;
             report(c, "c19:leak@" + lown, where + fmt("; %llu allocation(s) still live after deleting sessions, keys and matrixSslClose() (fault-free run: %llu); e.g. %llu bytes (#%llu) allocated at %s via %s", (unsigned long long) total,
                                                       (unsigned long long) b.live_total, (unsigned long long) lv.size, (unsigned long long) lv.seq, site_str(a).c_str(), via.c_str()));
             return;
